@@ -38,6 +38,65 @@ def tree_mc(chk, tier):
         chk.violation("spec:tree", "NutsTree invariant %s violated in model checking" % r["violated"], r["out"][-3000:])
 
 
+def pool_cfg(path, steps, spec, props, handles=3, cells=3, rule="last"):
+    with open(path, "w") as f:
+        f.write("CONSTANTS\n  NHandles = %d\n  Values = {1, 2}\n  MaxCells = %d\n  DropRule = \"%s\"\n  Steps = %d\n"
+                "SPECIFICATION %s\n%s\nCHECK_DEADLOCK FALSE\n" % (handles, cells, rule, steps, spec, props))
+
+
+def state_pool(chk, tier):
+    """StatePool.tla: invariants over all call sequences of the pooled state storage, then every call sequence of bounded
+    length (and sampled longer ones) replayed into the real StatePool / State."""
+    cfg = os.path.join(C.WORK, "c03_pool.cfg")
+    inv = "INVARIANT PoolInv\nPROPERTIES Stable FreshExclusive MutIffSole Economy"
+    pool_cfg(cfg, 0, "MCSpec", inv, handles=3 if tier == "quick" else 4, cells=3 if tier == "quick" else 4)
+    r = C.tlc("MC_StatePool.tla", cfg, "c03_pool", timeout=3000)
+    C.require_tlc_ok(r, "StatePool")
+    chk.add_tlc(r, "state_pool_mc")
+    if r["violated"]:
+        chk.violation("spec:pool", "StatePool property %s violated in model checking" % r["violated"], r["out"][-3000:])
+    # vacuity: the situations the invariants talk about are reachable, and a drop that recycles a shared cell is rejected
+    for guard in ("SeenShared", "SeenRefused", "SeenRecycled", "SeenOrphan"):
+        pool_cfg(cfg, 0, "MCSpec", "INVARIANT " + guard)
+        rv = C.tlc("MC_StatePool.tla", cfg, "c03_pool_v", timeout=600)
+        if rv["violated"] != guard:
+            raise C.ToolError("StatePool vacuity guard %s not reachable" % guard)
+    pool_cfg(cfg, 0, "MCSpec", "INVARIANT PoolInv", rule="any")
+    rv = C.tlc("MC_StatePool.tla", cfg, "c03_pool_m", timeout=600)
+    if rv["violated"] != "PoolInv":
+        raise C.ToolError("StatePool mutant (drop recycles a shared cell) not rejected by PoolInv")
+    plans = [("exhaustive", dict(steps=5 if tier == "quick" else 6), None)]
+    if tier == "quick":
+        plans.append(("sampled", dict(steps=14, handles=4, cells=4), 4000))
+    else:
+        plans.append(("sampled", dict(steps=24, handles=4, cells=4), 150000))
+        plans.append(("sampled5", dict(steps=40, handles=5, cells=5), 50000))
+    for name, kw, sim in plans:
+        pool_cfg(cfg, kw["steps"], "HistSpec", "INVARIANT Emit", handles=kw.get("handles", 3), cells=kw.get("cells", 3))
+        out = os.path.join(C.WORK, "c03_pool_%s.out" % name)
+        r = C.tlc("MC_StatePool.tla", cfg, "c03_pool_" + name, timeout=3000, out_path=out,
+                  simulate=sim, depth=kw["steps"] + 1 if sim else None, seed_arg=C.seed() + 1 if sim else None)
+        C.require_tlc_ok(r, "StatePool " + name)
+        if sim is None:
+            chk.add_tlc(r, "state_pool_" + name)
+        summ = os.path.join(C.WORK, "c03_pool_%s.json" % name)
+        C.vh(["replay-pool", out, summ], check=True, timeout=3000)
+        d = json.load(open(summ))
+        os.remove(out)
+        if d["cases"] == 0 or d["with_refused_write"] == 0 or d["with_dropped_pool"] == 0:
+            raise C.ToolError("StatePool replay %s is vacuous: %s" % (name, {k: d[k] for k in ("cases", "with_refused_write", "with_dropped_pool")}))
+        chk.cov["traces_validated_against_impl"] += d["cases"]
+        chk.part("state_pool_replay_" + name, call_sequences=d["cases"], calls=d["calls"], with_shared=d["with_shared"],
+                 with_refused_write=d["with_refused_write"], with_dropped_pool=d["with_dropped_pool"],
+                 failures=d["failures"], recycling_policy_differences=d["policy_differences"],
+                 first_policy_differences=[x["note"] for x in d["first_policy_differences"][:2]], cmd=r["cmd"])
+        if d["samples"]:
+            chk.sample({"pool_call_sequence": d["samples"][0]["ops"][:4]})
+        for f in d["first_failures"][:3]:
+            kind = "panic" if f["mismatch"].startswith("panic") else "mismatch"
+            chk.violation("pool:%s:%s" % (name, kind), "real StatePool left the model: %s" % f["mismatch"], f)
+
+
 def run(tier):
     chk = C.Check("C03", "model_checking", tier)
     chk.cov["rule"] = ("real chains are run through the public API with hooks on; every hook event (direction, leapfrog, "
@@ -49,9 +108,12 @@ def run(tier):
         "at 1e-12; energy_error == energy - initial_energy bit-exact; gradient identity by FNV hash of bit patterns",
         "position/logp/energy identity is by bit pattern (interned), not by numeric tolerance",
         "the U-turn criterion's numerics are covered on the exact lattice under C02, here its call pattern is checked",
+        "state pool replay: buffer identity is the allocation serial of the point and, independently, its address; allocation / "
+        "deallocation counts that differ from the model's LIFO recycling are reported as policy differences, not violations",
     ]
     C.build_harness()
     tree_mc(chk, tier)
+    state_pool(chk, tier)
     n = 150 if tier == "quick" else 1500
     scs = scenarios.nuts_scenarios(C.seed() * 1000003 + 17, n)
     raw = record_runs(scs, "c03")
